@@ -758,7 +758,11 @@ func (r *Run) c09Recipient(fn *ssa.Function, tm *Termer, loops []*Loop, bump, al
 	case !isPhi || l == nil:
 		ok, why = false, "the species that receives the make-up offspring is "+tm.Of(base(bump)).String()+", not a choice carried round a loop over all species"
 	case base(all) != ssa.Value(best):
-		ok, why = false, "the fallback gives the population to "+tm.Of(base(all)).String()+", not to the species chosen by the scan"
+		// the other spelling of "the chosen species": a later walk over all species that stores through the current
+		// species exactly in the iterations that compared it identical with the choice
+		if same, w := r.c09ChosenByIdentity(fn, tm, loops, l, best, all); !same {
+			ok, why = false, "the fallback gives the population to "+tm.Of(base(all)).String()+", not to the species chosen by the scan ("+w+")"
+		}
 	}
 	if ok {
 		for _, st := range []*ssa.Store{bump, all} {
@@ -851,6 +855,181 @@ func (r *Run) c09Recipient(fn *ssa.Function, tm *Termer, loops []*Loop, bump, al
 	}
 	r.Check(ok, "apportion.recipient", p.Pos(bump.Pos()), "the make-up offspring and the fallback go to the species with the largest quota, which exists whenever there is a species",
 		why+": the repair is given to nobody and the quotas total less than the population size")
+}
+
+// c09FullWalk: l visits every element of the list `what` (an origin term) once, in order: its only way out is the test
+// at its header, which keeps the iteration inside exactly when idx < len(what); idx is either a header phi started at
+// 0 and advanced by 1 on every back edge, or phi+1 of a header phi started at -1 that receives that very sum on every
+// back edge (the form a `range` statement compiles to). Returns idx, the index of the current element.
+func c09FullWalk(tm *Termer, l *Loop, what string) (ssa.Value, string) {
+	if l == nil || len(l.Header.Instrs) == 0 {
+		return nil, "not a loop"
+	}
+	iff, isIf := l.Header.Instrs[len(l.Header.Instrs)-1].(*ssa.If)
+	if !isIf || len(l.Header.Succs) != 2 || !l.Blocks[l.Header.Succs[0]] || l.Blocks[l.Header.Succs[1]] {
+		return nil, "the loop is not left by the false outcome of the test at its head"
+	}
+	for b := range l.Blocks {
+		if b == l.Header {
+			continue
+		}
+		for _, s := range b.Succs {
+			if !l.Blocks[s] {
+				return nil, "the loop can be left from its body"
+			}
+		}
+	}
+	x, y, op, okc := CmpFact(iff.Cond, true)
+	if !okc {
+		return nil, "the test at the head of the loop is not a comparison"
+	}
+	if op == token.GTR {
+		x, y, op = y, x, token.LSS
+	}
+	if op != token.LSS || tm.Of(y).String() != "len("+what+")" {
+		return nil, "the loop does not run while index < len(" + what + ")"
+	}
+	var ph *ssa.Phi
+	start := int64(0)
+	if q, isPhi := x.(*ssa.Phi); isPhi {
+		ph = q
+	} else if b, isB := x.(*ssa.BinOp); isB && b.Op == token.ADD {
+		switch {
+		case IsConstIntValue(b.Y, 1):
+			ph, _ = b.X.(*ssa.Phi)
+		case IsConstIntValue(b.X, 1):
+			ph, _ = b.Y.(*ssa.Phi)
+		}
+		start = -1
+	}
+	if ph == nil || ph.Block() != l.Header {
+		return nil, "the index is not carried round the loop"
+	}
+	for i, e := range ph.Edges {
+		if !l.Blocks[l.Header.Preds[i]] {
+			if !IsConstIntValue(e, start) {
+				return nil, "the walk does not start at the first element"
+			}
+			continue
+		}
+		if start == -1 {
+			if e != x {
+				return nil, "the index is not advanced by one per iteration"
+			}
+			continue
+		}
+		b, isB := e.(*ssa.BinOp)
+		if !isB || b.Op != token.ADD || !((b.X == ssa.Value(ph) && IsConstIntValue(b.Y, 1)) || (b.Y == ssa.Value(ph) && IsConstIntValue(b.X, 1))) {
+			return nil, "the index is not advanced by one per iteration"
+		}
+	}
+	return x, ""
+}
+
+// c09ChosenByIdentity: the store `all` writes through the species chosen by the scan l (whose choice is the header
+// phi best) although its base is not that phi. Claimed, all of it:
+//   - the base is the current element recv.Species[idx] of a loop w that visits every species (c09FullWalk), entered
+//     only after the scan has been left;
+//   - among the branch outcomes that dominate the store, those taken inside w are exactly one, and it says
+//     `current == best` (pointer identity, either spelling), the test being passed in every iteration of w;
+//   - between the scan and the walk, and during the walk, the species list is not written (no store to Population.Species, no store to an
+//     element of a species list, no call that is handed the population).
+//
+// The choice is nil or an element of the list the scan walked; the walk reaches every element of the same list, so
+// the store runs for the chosen species whenever there is one - the same fact as `best.quota = n` under best != nil.
+func (r *Run) c09ChosenByIdentity(fn *ssa.Function, tm *Termer, loops []*Loop, scan *Loop, best *ssa.Phi, all *ssa.Store) (bool, string) {
+	p := r.P
+	fa, isFA := all.Addr.(*ssa.FieldAddr)
+	if !isFA {
+		return false, "the store is not made through a species"
+	}
+	cur := fa.X
+	w := InnermostLoop(loops, all.Block())
+	if w == nil || w == scan {
+		return false, "it is not written in a walk over the species that follows the scan"
+	}
+	idx, why := c09FullWalk(tm, w, "recv.Species")
+	if idx == nil {
+		return false, "the loop around the store does not visit every species: " + why
+	}
+	// isCur: v is recv.Species[idx] read inside the walk (the list is not written there, see below, so every such
+	// read yields the same species within one iteration)
+	isCur := func(v ssa.Value) bool {
+		ld, isLoad := v.(*ssa.UnOp)
+		if !isLoad || ld.Op != token.MUL || !w.Blocks[ld.Block()] || tm.Of(v).String() != "recv.Species[*]" {
+			return false
+		}
+		ia, isIA := ld.X.(*ssa.IndexAddr)
+		return isIA && ia.Index == idx
+	}
+	if !isCur(cur) {
+		return false, "the species written is not the element at the index of the walk"
+	}
+	if scan.Blocks[w.Header] || !reachesBlock(scan.Header, w.Header) || reachesBlock(w.Header, scan.Header) {
+		return false, "the walk does not follow the scan"
+	}
+	// the one test inside the walk: current == best
+	n := 0
+	for _, g := range Guards(all.Block()) {
+		if !w.Blocks[g.At] || g.At == w.Header {
+			continue
+		}
+		n++
+		x, y, op, okc := CmpFact(g.Cond, g.True)
+		if !okc || op != token.EQL || !((isCur(x) && y == ssa.Value(best)) || (isCur(y) && x == ssa.Value(best))) {
+			return false, "inside the walk the store depends on " + tm.Of(g.Cond).String() + fmt.Sprintf(" (taken %v)", g.True) + ", not only on the identity of the current species with the choice"
+		}
+		for _, lt := range w.Latch {
+			if !(g.At == lt || g.At.Dominates(lt)) {
+				return false, "the identity test is skipped in some iterations of the walk"
+			}
+		}
+		if il := InnermostLoop(loops, g.At); il != w {
+			return false, "the identity test sits in an inner loop"
+		}
+	}
+	if n != 1 {
+		return false, fmt.Sprintf("inside the walk the store is made under %d tests; expected the single test current == choice", n)
+	}
+	// the list walked is the list scanned
+	between := func(b *ssa.BasicBlock) bool {
+		return w.Blocks[b] || ((b == scan.Header || reachesBlock(scan.Header, b)) && (b == w.Header || reachesBlock(b, w.Header)))
+	}
+	for _, st := range FieldStores(fn, p.Field(PkgG, "Population", "Species")) {
+		if between(st.Block()) {
+			return false, "the species list is replaced at " + p.Pos(st.Pos()) + " between the scan and the walk"
+		}
+	}
+	bad := ""
+	Instrs(fn, func(b *ssa.BasicBlock, _ int, in ssa.Instruction) {
+		if bad != "" || !between(b) {
+			return
+		}
+		switch x := in.(type) {
+		case *ssa.Store:
+			if ia, isIA := x.Addr.(*ssa.IndexAddr); isIA && strings.HasPrefix(tm.Of(ia.X).String(), "recv.Species") && !strings.Contains(tm.Of(ia.X).String(), "[*].") {
+				bad = "an element of the species list is replaced at " + p.Pos(x.Pos())
+			}
+		case ssa.CallInstruction:
+			c := x.Common()
+			if bi, isBuiltin := c.Value.(*ssa.Builtin); isBuiltin && (bi.Name() == "len" || bi.Name() == "cap") {
+				return
+			}
+			args := append([]ssa.Value{}, c.Args...)
+			if c.IsInvoke() {
+				args = append(args, c.Value)
+			}
+			for _, a := range args {
+				if t := tm.Of(a).String(); t == "recv" || t == "recv.Species" {
+					bad = "the population or its species list is handed to a call at " + p.Pos(x.Pos())
+				}
+			}
+		}
+	})
+	if bad != "" {
+		return false, bad + " between the scan and the walk"
+	}
+	return true, ""
 }
 
 // c09BodyConds: the branch outcomes that decide whether block b runs, without the range conditions of
